@@ -106,6 +106,8 @@ def check_graph(res, scratch, ids, choice, variant, maxlen, gi, do_findpath):
     else:
         text = g.text()
     path = os.path.join(scratch, "g.gfa")
+    if gi % 3 == 1:
+        text = text.rstrip("\n")  # some graph files end without a newline
     fw.write_text(path, text)
     out = fw.guarded(GFA, path)
     if out.kind != "ok":
